@@ -93,10 +93,10 @@ def fixes_table():
 VERDICT = {
     'C01': 'PARTIAL: VM instruction kernel + dispatch, runtime hooks, translator op structure',
     'C02': '**DECIDED** (token list -> operand list -> tree, every length)',
-    'C03': 'PARTIAL: Val -> format value mappers, lowering, out/convert hook; one KNOWN FINDING',
+    'C03': 'PARTIAL: Val -> format value mappers, lowering, out/convert hook',
     'C04': 'PARTIAL: panic-freedom + termination of every extracted function',
     'C05': 'PARTIAL, narrow: literal layer',
-    'C06': 'PARTIAL: run-time half (+ static narrowing kernel where enabled)',
+    'C06': 'PARTIAL: run-time half + static narrowing kernel (no named-constraint correctness)',
     'C08': 'DECIDED modulo std models',
     'C09': 'PARTIAL, function level: path rewriter + whole AST walker, import hook',
     'C10': 'PARTIAL: symbol-table layer, function/nested scopes',
